@@ -279,6 +279,10 @@ class YModRT:
         which, s = int(f[1]) & 3, unhex(f[2])
         # printed single-quoted: only a default that was read single-quoted (LYS_SINGLEQUOTED is kept by the parser)
         sq_out = which == 3 and bool(int(f[1]) & 4)
+        if out.startswith("CRASH(") or out == "TIMEOUT":
+            # (the driver died, e.g. because the re-parsed module has no such statement at all: a finding, not an exception
+            # of the check - added by the ymod slice after seeded/C10-6 ended the whole check here)
+            return (None, "the driver died on the string %r: %s" % (s[:80], out))
         if out == "E":
             return None                       # the context does not accept the module
         if out == "X":
